@@ -206,6 +206,7 @@ def gen_program(rng, n_meas=None, n_ops=None, rational_only=False, allow_pairs=T
     n_ops = n_ops or rng.randrange(1, 9)
     steps, vals, kinds = [], [], []      # vals: float value of each object id
     hidden = set()                       # intermediate results the harness holds no reference to
+    small_scale = rng.random() < 0.12    # every uncertainty of the program far below any absolute tolerance (1e-8 ...)
     for _ in range(n_meas):
         v = dyadic(rng, -3, 8)
         if abs(v) < 0.25:
@@ -217,6 +218,8 @@ def gen_program(rng, n_meas=None, n_ops=None, rational_only=False, allow_pairs=T
         e = rng.choice([0.0, 0.125, 0.25, 0.5, 0.0625, 1.0, dyadic(rng, -4, 1) ** 2])
         if rng.random() < 0.1:
             e = rng.choice([2.0 ** -14, 2.0 ** -17, 3 * 2.0 ** -16, 2.0 ** -20])   # small against every absolute tolerance
+        if small_scale and e > 0:
+            e = rng.choice([2.0 ** -14, 2.0 ** -15, 3 * 2.0 ** -16, 5 * 2.0 ** -17])
         steps.append(["meas", v, abs(e)])
         vals.append(v)
         kinds.append("meas")
